@@ -274,14 +274,20 @@ func (self *BinaryConv) unmarshalList(ctx context.Context, resp http.ResponseSet
 		start := p.Read
 		// parse Value repeated
 		for p.Read < start+len {
-			self.unmarshalSingular(ctx, resp, p, out, fd.Elem())
+			// an element that can't be decoded must end the conversion: it consumes nothing, so ignoring the
+			// error would repeat this iteration forever
+			if err := self.unmarshalSingular(ctx, resp, p, out, fd.Elem()); err != nil {
+				return unwrapError("unmarshal packed List element error", err)
+			}
 			if p.Read != start && p.Read != start+len {
 				*out = json.EncodeArrayComma(*out)
 			}
 		}
 	} else {
 		// unpackedList(format)：[Tag][Length][Value] [Tag][Length][Value]....
-		self.unmarshalSingular(ctx, resp, p, out, fd.Elem())
+		if err := self.unmarshalSingular(ctx, resp, p, out, fd.Elem()); err != nil {
+			return unwrapError("unmarshal List element error", err)
+		}
 		for p.Read < len(p.Buf) {
 			elementFieldNumber, _, tagLen, err := p.ConsumeTagWithoutMove()
 
@@ -294,7 +300,9 @@ func (self *BinaryConv) unmarshalList(ctx context.Context, resp http.ResponseSet
 			}
 			*out = json.EncodeArrayComma(*out)
 			p.Read += tagLen
-			self.unmarshalSingular(ctx, resp, p, out, fd.Elem())
+			if err := self.unmarshalSingular(ctx, resp, p, out, fd.Elem()); err != nil {
+				return unwrapError("unmarshal List element error", err)
+			}
 		}
 	}
 
